@@ -75,6 +75,58 @@ func inflateTable(stream []byte) string {
 	return strings.Join(entries, " ")
 }
 
+// zlibDamage returns a description of the first metric chunk (type 1, binary data) of a cleanly framed,
+// strictly valid document sequence whose payload cannot be inflated to the end without an error.
+func zlibDamage(stream []byte) string {
+	p := stream
+	idx := 0
+	for len(p) > 0 {
+		if len(p) < 4 {
+			return ""
+		}
+		l := int(int32(binary.LittleEndian.Uint32(p)))
+		if l < 5 || l > len(p) {
+			return ""
+		}
+		kids, err := parseDocStrict(p[:l])
+		p = p[l:]
+		if err != nil {
+			return ""
+		}
+		isMetric, seenType := false, false
+		var data []byte
+		nData := 0
+		for _, k := range kids {
+			switch {
+			case k.Key == "type" && !seenType:
+				seenType = true
+				switch k.Tag {
+				case 0x10:
+					isMetric = int32(binary.LittleEndian.Uint32(k.Raw)) == 1
+				case 0x12:
+					isMetric = int64(binary.LittleEndian.Uint64(k.Raw)) == 1
+				}
+			case k.Key == "data":
+				nData++
+				if k.Tag == 0x05 && k.Raw[4] == 0 && data == nil {
+					data = k.Raw[5:]
+				}
+			}
+		}
+		if isMetric && nData == 1 && len(data) > 4 {
+			zr, err := zlib.NewReader(bytes.NewReader(data[4:]))
+			if err != nil {
+				return fmt.Sprintf("document %d: %v", idx, err)
+			}
+			if _, err := io.ReadAll(zr); err != nil {
+				return fmt.Sprintf("document %d: %v", idx, err)
+			}
+		}
+		idx++
+	}
+	return ""
+}
+
 func metaHex(d *birch.Document) string {
 	if d == nil {
 		return "-"
@@ -164,6 +216,16 @@ func cmdRead(o *Out, line string, f []string) {
 	}
 	if ob.err == nil && (counts["ReadMetrics"] != total || counts["ReadStructuredMetrics"] != total || counts["ReadMatrix"] != len(ob.sizes) || counts["ReadSeries"] != len(ob.sizes)) {
 		o.violation(line, "document/matrix/series iterators deliver a different number of items than the chunk table holds", counts)
+	}
+
+	// independent of the model and of the generator's expectations: when the stream is a sequence of
+	// strictly valid documents and compress/zlib itself reports an error for the payload of a metric
+	// chunk (bad header, damaged deflate data, truncated stream, wrong checksum), the damage is in a
+	// chunk and must be reported
+	if ob.err == nil {
+		if what := zlibDamage(stream); what != "" {
+			o.violation(line, "a metric chunk whose compressed payload compress/zlib rejects was read without an error", what)
+		}
 	}
 
 	if len(sec) < 3 {
